@@ -328,9 +328,8 @@ def composed(c, replay_script=None):
         s = dict(replay_script, id="replay")
         lines = xslib.execute(c, binp, [s], "composed_replay")
         for v in xslib.monitor(c, lines, "composed_replay"):
-            if v["clause"] == "DrainedPersistent":
-                c.violation("composed exporter (persistent queue + batcher + retry): accepted items %s are neither exported with a "
-                            "final outcome nor stored after Shutdown; script: %s" % (v["detail"], xslib.fmt(s)),
+            if v["clause"] in ("DrainedPersistent", "StoredIsRedelivered"):
+                c.violation("composed exporter (persistent queue + batcher + retry): %s %s; script: %s" % (v["clause"], v["detail"], xslib.fmt(s)),
                             replay_obj=dict(kind="composed", script=replay_script))
         c.sample(dict(script=xslib.fmt(s)))
         return
@@ -341,24 +340,29 @@ def composed(c, replay_script=None):
     lines = xslib.execute_or_crash(c, binp, scripts, "composed")
     if lines is None:
         return
-    verdicts = [v for v in xslib.monitor(c, lines, "composed") if v["clause"] == "DrainedPersistent"]
+    # DrainedPersistent: nothing accepted is missing from both "exported with a final outcome" and "stored"; StoredIsRedelivered:
+    # what is stored is handed to the export function by the next incarnation of the exporter over the same storage
+    COMPOSED = ("DrainedPersistent", "StoredIsRedelivered")
+    verdicts = [v for v in xslib.monitor(c, lines, "composed") if v["clause"] in COMPOSED]
     byid = {s["id"]: s for s in scripts}
     reported = 0
     for v in verdicts[:20]:
         s = byid[v["script"]]
         l2 = xslib.execute(c, binp, [dict(s, id="confirm")], "composed_confirm")     # alone, once more
-        if not [w for w in xslib.monitor(c, l2, "composed_confirm") if w["clause"] == "DrainedPersistent"]:
+        if not [w for w in xslib.monitor(c, l2, "composed_confirm") if w["clause"] == v["clause"]]:
             c.extra["composed_unconfirmed"] = c.extra.get("composed_unconfirmed", 0) + 1
             continue
-        c.violation("composed exporter (persistent queue + batcher + retry): accepted items %s are neither exported with a final "
-                    "outcome nor stored after Shutdown; script: %s" % (v["detail"], xslib.fmt(s)),
-                    replay_obj=dict(kind="composed", script={k: s[k] for k in ("cfg", "steps", "outcomes")}))
+        c.violation("composed exporter (persistent queue + batcher + retry): %s; script: %s" % (
+                    ("accepted items %s are neither exported with a final outcome nor stored after Shutdown" % v["detail"])
+                    if v["clause"] == "DrainedPersistent" else
+                    ("items %s were stored when the exporter stopped but the next incarnation over the same storage never exported them" % v["detail"]),
+                    xslib.fmt(s)), replay_obj=dict(kind="composed", script={k: s[k] for k in ("cfg", "steps", "outcomes")}))
         reported += 1
         if reported >= 5:
             break
     c.traces_validated += len(scripts)
     c.extra["composed_scripts"] = len(scripts)
-    c.log("composed exporter: %d scripts, %d DrainedPersistent verdict lines, %d reported" % (len(scripts), len(verdicts), reported))
+    c.log("composed exporter: %d scripts, %d DrainedPersistent / StoredIsRedelivered verdict lines, %d reported" % (len(scripts), len(verdicts), reported))
 
 
 def strict(c, sample):
